@@ -113,6 +113,20 @@ def check_sat(assumptions, timeout_ms=QUICK_TIMEOUT_MS, want_model=True, try_fal
         if r3 in ("sat", "unsat"):
             res = r3
             backend = "cvc5-cli"
+    if res == "unknown" and try_fallbacks:
+        # last resort: the same query again with another random seed and three times the budget (verdicts must not flip to
+        # 'undecided' because all cores happened to be busy)
+        s4 = z3.Solver()
+        s4.set("timeout", int(timeout_ms) * 3)
+        s4.set("random_seed", 7)
+        for a in assumptions:
+            s4.add(a)
+        r4 = s4.check()
+        if str(r4) != "unknown":
+            res = str(r4)
+            backend = "z3-%s (retry)" % z3.get_version_string()
+            if r4 == z3.sat and want_model:
+                model = s4.model()
     ms = (time.time() - t0) * 1000.0
     return res, backend, model, ms, smt2
 
